@@ -23,21 +23,23 @@ class Binder:
                 self.A = a.arg
         if self.A is None:
             raise AnchorError("bind_arguments: no parameter annotated ActualArguments")
+        # the binding loop: the loop over the parameters that advances an index into <actuals>.positionals
+        # (other loops over the parameters, e.g. one that only counts them, are not it)
         self.loop = None
-        for n in walk_no_nested(self.fn):
-            if isinstance(n, ast.For) and norm(n.iter) == "self.parameters.values()" and isinstance(n.target, ast.Name):
-                self.loop = n
-        if self.loop is None:
-            raise AnchorError("bind_arguments: loop over self.parameters.values() not found")
-        self.P = self.loop.target.id
         self.IDX = None
-        for n in ast.walk(self.loop):
-            if isinstance(n, ast.Compare) and len(n.ops) == 1 and isinstance(n.ops[0], ast.Lt) and isinstance(n.left, ast.Name):
-                r = n.comparators[0]
-                if isinstance(r, ast.Call) and last_attr(r) == "len" and r.args and self._is_A(r.args[0], "positionals"):
-                    self.IDX = n.left.id
-        if self.IDX is None:
+        candidates = [n for n in walk_no_nested(self.fn) if isinstance(n, ast.For) and norm(n.iter) == "self.parameters.values()" and isinstance(n.target, ast.Name)]
+        if not candidates:
+            raise AnchorError("bind_arguments: loop over self.parameters.values() not found")
+        for loop in candidates:
+            for n in ast.walk(loop):
+                if isinstance(n, ast.Compare) and len(n.ops) == 1 and isinstance(n.ops[0], ast.Lt) and isinstance(n.left, ast.Name):
+                    r = n.comparators[0]
+                    if isinstance(r, ast.Call) and last_attr(r) == "len" and r.args and self._is_A(r.args[0], "positionals"):
+                        self.loop = loop
+                        self.IDX = n.left.id
+        if self.loop is None or self.IDX is None:
             raise AnchorError("bind_arguments: positional index variable not found")
+        self.P = self.loop.target.id
         self.bound = None
         for n in ast.walk(self.loop):
             if isinstance(n, ast.Assign) and isinstance(n.targets[0], ast.Subscript) and self._is_P(n.targets[0].slice, "name") and isinstance(n.targets[0].value, ast.Name):
